@@ -137,9 +137,11 @@ def P_C07 (p : Program) (r : Result) : List String :=
     if (specStmts false p.rglobals f).map (DStmt.render DTree.str) == (specStmts true p.rglobals f).map (DStmt.render DTree.str)
     then [] else [s!"c07:fn{i}:fold-tree-differs-from-reference-tree"])
 
-def DStmt.hasExt (d : DStmt) : Bool := match d.tree? with
-  | some t => !t.exts.isEmpty
-  | none => false
+def DStmt.hasExt (d : DStmt) : Bool := match d with
+  | .extS _ => true
+  | _ => match d.tree? with
+    | some t => !t.exts.isEmpty
+    | none => false
 
 /-- C19: extension leaves once, in evaluation order, the operand is the returned result verbatim,
 and every extension instruction of a block is in every ancestor's stack (by C18's subsequence) -/
@@ -151,7 +153,7 @@ def P_C19 (p : Program) (r : Result) : List String :=
     cmpRendered "c19" (fun d => if d.hasExt then DStmt.render DTree.str d else "") (denotePairs p r) ++
     ((p.fnDecls.zip r.roots).zipIdx.flatMap fun ((f, b), i) =>
       let want := f.extLeaves.map (·.1)
-      let got := b.context.filterMap fun | .ext t _ => some t | _ => none
+      let got := b.context.filterMap Instr.extTag
       if want == got then [] else [s!"c19:fn{i}:extension-instructions:{got}:expected:{want}"])
    else []) ++
   (r.roots.zipIdx.flatMap fun (b, i) => if b.subseqOk then [] else [s!"c19:fn{i}:extension-instruction-missing-in-ancestor"])
